@@ -1376,6 +1376,14 @@ pub fn case_reject(ctx: &mut Ctx, case: &Value) {
             stdin = Some(bad);
             ("auto".to_string(), "stdin")
         }
+        "explicit-file" => {
+            // the format named on the command line, and a file whose extension says the opposite:
+            // the named format decides
+            let ext = if flag == "gambit" { "json" } else { "efg" };
+            let f = scratch_file(ctx, &format!("bad.{}", ext), bad);
+            args.extend(["--input-format".to_string(), flag.to_string(), "-i".to_string(), f]);
+            (flag.to_string(), ext)
+        }
         _ => {
             // a file whose extension selects the reader
             let ext = if format == "gambit" { "efg" } else { "json" };
@@ -1523,7 +1531,7 @@ pub fn c17(ctx: &mut Ctx) -> String {
             continue;
         }
         let format = if gambit { "gambit" } else { "json" };
-        let routes: &[&str] = if other_format { &["explicit"] } else { &["explicit", "auto", "file-ext"] };
+        let routes: &[&str] = if other_format { &["explicit", "explicit-file"] } else if i % 4 == 0 { &["explicit", "auto", "file-ext", "explicit-file"] } else { &["explicit", "auto", "file-ext"] };
         for route in routes {
             let mut case = json!({"op": "cli-reject", "format": format, "corruption": what, "route": route, "expected_category": expect, "input": bad});
             if other_format {
